@@ -217,14 +217,13 @@ example : ∃ t, Verb.retr.guards = .conn [.logged, .passiveServer] false 503 ::
 example : ∃ t, Verb.stor.guards = .conn [.logged, .passiveServer] false 503 :: t := ⟨_, rfl⟩
 example : ∃ t, Verb.list.guards = .conn [.logged, .passiveServer] false 503 :: t := ⟨_, rfl⟩
 
-/-- **session_ends_only_after.**  The model ends a session by itself only after one of these replies
-    (or the F1 crash): 221 to QUIT, 522 to EPSV-with-argument, 503 to PASV on an IPv6 listener. -/
+/-- **session_ends_only_after.**  The model ends a session by itself only after one of these replies:
+    221 to QUIT, or 503 to PASV on an IPv6 listener (EPSV-with-argument no longer does: finding F10 repaired). -/
 theorem session_ends_only_after (cfg : Cfg) (w : World) (s : SState) (name rest : Str) (payload : Bytes)
     (ha : s.alive = true) (hd : (dispatch cfg w s name rest payload).2.1.alive = false)
     (hc : (dispatch cfg w s name rest payload).2.2.crashed = false) :
     let o := (dispatch cfg w s name rest payload).2.2
     (verbOf name = some .quit ∧ o.replies = [221]) ∨
-    (verbOf name = some .epsv ∧ rest ≠ [] ∧ o.replies = [522]) ∨
     (verbOf name = some .pasv ∧ cfg.ipv6 = true ∧ o.replies = [503]) := by
   simp only
   unfold dispatch at hd hc ⊢
@@ -241,13 +240,22 @@ theorem session_ends_only_after (cfg : Cfg) (w : World) (s : SState) (name rest 
     | crash => simp [hg] at hc
     | pass =>
       simp only [hg] at hd hc ⊢
-      cases v <;> simp only [body, worker] at hd hc ⊢ <;> (repeat' split at hd) <;>
+      have h522 : Verb.epsv.closingCodes.contains 522 = false := by decide
+      cases v <;> simp only [body, worker, h522] at hd hc ⊢ <;> (repeat' split at hd) <;>
         simp_all
 
 /-- the set of replies after which a handler returns False, as the translator found it in the source -/
 theorem closing_codes_table :
     (Verb.all.filter (fun v => !v.closingCodes.isEmpty)).map (fun v => (v.name, v.closingCodes)) =
-      [("epsv", [421, 522]), ("pasv", [421, 503]), ("quit", [221])] := by decide
+      [("epsv", [421]), ("pasv", [421, 503]), ("quit", [221])] := by decide
+
+/-- F10 repaired: `EPSV <argument>` is answered 522 and the session goes on -/
+theorem epsv_argument_keeps_session (cfg : Cfg) (w : World) (s : SState) (rest : Str) (arg : PPath)
+    (payload : Bytes) (h : rest ≠ []) (ha : s.alive = true) :
+    (body cfg w s .epsv rest arg payload).2.2.replies = [522] ∧ (body cfg w s .epsv rest arg payload).2.1.alive = true := by
+  have h522 : ¬ (522 ∈ Verb.epsv.closingCodes) := by decide
+  have : rest.isEmpty = false := by cases rest <;> simp_all
+  simp [body, this, h522, ha]
 
 /-! ### restart offset: scope -/
 
@@ -305,11 +313,11 @@ theorem relogin_resets_cwd (cfg : Cfg) (w : World) (s : SState) (rest : Str) (ar
   simp only [body] at h ⊢
   simp only [h, hu, Option.map, Option.getD]
 
-/-- PASV/EPSV let go of a parked data connection -/
-theorem pasv_drops_parked_data (cfg : Cfg) (w : World) (s : SState) (rest : Str) (arg : PPath)
-    (payload : Bytes) : (body cfg w s .epsv rest arg payload).2.1.dataConn = false ∨
-      (body cfg w s .epsv rest arg payload).2.1.alive = false := by
-  simp only [body]; split <;> simp
+/-- a successful PASV/EPSV lets go of a parked data connection -/
+theorem pasv_drops_parked_data (cfg : Cfg) (w : World) (s : SState) (arg : PPath)
+    (payload : Bytes) : (body cfg w s .epsv [] arg payload).2.1.dataConn = false ∧
+      (body cfg w s .epsv [] arg payload).2.2.replies = [229] := by
+  simp [body]
 
 /-! ### non-vacuity -/
 
